@@ -32,6 +32,8 @@ class Scenario:
         self.isothermal = "non_isothermal" not in self.kind
         self.mix, self.mdesc = gen.gen_mixture(rng, 0.0 if builtin_only else p_synth)
         self.model = rng.choice(list(models))
+        if rng.random() < 0.4:
+            self.model = gen.fresh_str(self.model)
         self.membrane = gen.gen_membrane(rng, self.mix)
         self.pv = Pervaporation(self.membrane, self.mix)
         self.t0 = gen.pick_temperature(rng, 283.0, 390.0)
@@ -43,6 +45,7 @@ class Scenario:
             self.mode, self.tp, self.pp = "V", None, None
         self.area = gen.loguniform(rng, 1e-3, 1e2)
         self.m0 = gen.loguniform(rng, 1e-2, 1e3)
+        self.numpy_inputs = rng.random() < 0.1
         if rng.random() < 0.12:
             # plain Python ints are legitimate numbers for a temperature, an area or an amount
             self.t0 = int(round(self.t0))
@@ -97,6 +100,11 @@ class Scenario:
         self.program = None
         if allow_program and rng.random() < 0.45:
             self.program = gen.gen_program(rng, self.t0, self.dt * self.n)
+        if self.numpy_inputs:
+            import numpy
+
+            # numpy scalars (what array slicing / pandas hand to user code) are legitimate numbers as well
+            self.area, self.t0, self.m0, self.dt = numpy.float64(self.area), numpy.float64(self.t0), numpy.float64(self.m0), numpy.float64(self.dt)
         self.conditions = Conditions(
             membrane_area=self.area, initial_feed_temperature=self.t0, initial_feed_amount=self.m0,
             initial_feed_composition=self.x0, permeate_temperature=self.tp, permeate_pressure=self.pp,
